@@ -3,7 +3,7 @@ GO_PKGNAME = "dht"
 HARNESS = ["dht/sim_test.go", "dht/lookup_test.go", "dht/world_test.go", "dht/c03_test.go"]
 GO_TEST = "TestVerifC03"
 RUN_MODULE = "Run_C03"
-COQ_TARGETS = ["Corr/Run_C03.vo", "Proofs/LookupConvergence.vo", "Proofs/OptProvideProofs.vo"]
+COQ_TARGETS = ["Corr/Run_C03.vo", "Proofs/LookupConvergence.vo", "Proofs/OptProvideProofs.vo", "Proofs/FollowupProofs.vo"]
 N = {"quick": 270, "thorough": 5400}
 RULE = ("the nine public routing operations (GetClosestPeers, FindPeer, GetValue, SearchValue, FindProviders, FindProvidersAsync, PutValue, classic "
         "Provide, optimistic Provide with a primed network-size estimator) on random networks whose peers answer, fail the dial, fail the request, stay "
